@@ -213,6 +213,13 @@ impl PredicatePushdown {
                         let pred_cols = self.extract_columns(p);
                         self.columns_subset(&pred_cols, &input_cols)
                             && !pred_cols.iter().any(|c| computed.contains(c.name.as_str()))
+                            // An unqualified name that is unique in the projection's
+                            // output but not in its input (`SELECT t.a, w.a AS wa`)
+                            // would become ambiguous below it.
+                            && !pred_cols.iter().any(|c| {
+                                c.relation.is_none()
+                                    && input_cols.iter().filter(|(_, n)| n == &c.name).count() > 1
+                            })
                     });
 
                 let result = self.pushdown(&node.input, pushable)?;
